@@ -1,16 +1,25 @@
 #!/usr/bin/env bash
-# Re-verify every seeded change against the current /repo HEAD and re-run the checks that should catch it.
-# Uses /repo (apply + restore) -- do not touch /repo while this runs.
+# Re-verify every seeded change against the current /repo HEAD (re-basing patches where needed) and re-run the
+# checks that caught it. Uses /repo itself (apply + restore): nothing else may touch /repo meanwhile.
+# Writes seeded/SUMMARY.txt: one line per seed with the checks that report it.
 cd /verif
-declare -A CHECKS=(
- [C01-a]="C01 C02 C07" [C01-b]="C01 C03" [C02-a]="C02 C01 C07 C16" [C02-b]="C02 C16" [C03-a]="C03 C01" [C03-c]="C03"
- [C04-a]="C04" [C04-c]="C04" [C05-a]="C05 C01" [C05-b]="C05" [C06-a]="C06 C02" [C06-b]="C06" [C07-a]="C07 C01" [C07-c]="C07"
- [C08-a]="C08" [C08-b]="C08" [C09-a]="C09" [C09-c]="C09" [C10-a]="C10" [C10-b]="C10" [C11-a]="C11 C05" [C11-c]="C11"
- [C12-a]="C12" [C12-b]="C12" [C13-a]="C13" [C13-c]="C13" [C14-a]="C14" [C14-c]="C14" [C15-a]="C15" [C15-c]="C15" [C16-a]="C16 C02" [C16-b]="C16"
-)
-for s in $(ls seeded | sort); do
-  echo "===== $s"
-  if [ -f seeded/$s/demo.rs ]; then tools/verify_seed.sh seeded/$s | tail -4; fi
-  tools/try_seed.sh seeded/$s quick ${CHECKS[$s]}
+: > seeded/SUMMARY.txt.new
+for d in $(ls seeded | grep -v "^benign-\|SUMMARY" | sort); do
+  id="${d%%-*}"
+  prev=$(grep -h " rc=1 " seeded/$d/detect_quick.txt 2>/dev/null | awk '{print $1}' | sort -u | tr '\n' ' ')
+  checks="$id $prev"
+  checks=$(echo $checks | tr ' ' '\n' | sort -u | tr '\n' ' ')
+  echo "===== $d ($checks)"
+  if [ -f seeded/$d/demo.rs ]; then tools/verify_seed.sh seeded/$d | tail -4 | cut -c1-120; fi
+  tools/try_seed.sh seeded/$d quick $checks | cut -c1-200
+  hit=$(grep " rc=1 " seeded/$d/detect_quick.txt | awk '{print $1}' | tr '\n' ' ')
+  echo "$d: ${hit:-NOT DETECTED}" >> seeded/SUMMARY.txt.new
 done
+for d in $(ls seeded | grep "^benign-" | sort); do
+  tools/try_seed.sh seeded/$d quick > /dev/null
+  hit=$(grep " rc=1 " seeded/$d/detect_quick.txt | awk '{print $1}' | tr '\n' ' ')
+  echo "$d: ${hit:-silent (all 16 checks exit 0)}" >> seeded/SUMMARY.txt.new
+done
+mv seeded/SUMMARY.txt.new seeded/SUMMARY.txt
 rm -rf /tmp/wt/verify_target
+echo REVERIFY-DONE
